@@ -184,6 +184,14 @@ impl Prop for C02T {
                 u.mnems[k + 1] = format!("{ws}{}", u.mnems[k + 1]); // "VOLT: LEV"
             }
         }
+        // ... and one unit in twelve is followed by white space in front of its ';' / terminator
+        for msg in msgs.iter_mut() {
+            for u in msg.units.iter_mut() {
+                if u.raw.is_none() && rng.chance(1, 12) {
+                    u.ws_after = rng.pick(&[&b" "[..], b"  ", b"\t", b" \t"]).to_vec();
+                }
+            }
+        }
         let need = need_n(&msgs).max(need_n(&rewrite(&msgs)));
         let ns: Vec<usize> = IFACES[iface].ns.iter().copied().filter(|&n| n >= need).collect();
         let n = if ns.is_empty() { *IFACES[iface].ns.last().unwrap() } else { ns[rng.below(ns.len().min(3))] };
